@@ -2,7 +2,7 @@
 import sys
 
 from engine.prelude import tick, flag, excluded, bits, PART, xh_control
-from sandbox_common import TERMINATIONS, state, fresh, enter
+from sandbox_common import TERMINATIONS, state, fresh, enter, use_real_stream
 import pedal.sandbox.sandbox as SB
 
 # label of the runtime feedback expected per termination class (documented titles of pedal.sandbox.feedbacks)
@@ -10,10 +10,10 @@ EXPECT_LABEL = {"ValueError": "value_error", "KeyError": "key_error", "ZeroDivis
 HANDLED = [i for i, t in enumerate(TERMINATIONS) if t[2]]
 
 
-def contain1(t0: bool, t1: bool, t2: bool, t3: bool, text: str) -> bool:
+def contain1(t0: bool, t1: bool, t2: bool, t3: bool, text: str, close: bool) -> bool:
     """
     One execution (entry point = partition: 0 run, 1 call, 2 evaluate) whose stubbed program prints `text` and ends in
-    one of the 10 handled ways. The entry point returns normally, the failure is the sandbox's exception, exactly one
+    one of the 10 handled ways, optionally closing the stream it was given first. The entry point returns normally, the failure is the sandbox's exception, exactly one
     runtime-category feedback for that class is attached (none when the program ended normally).
 
     pre: len(text) <= 1
@@ -24,10 +24,13 @@ def contain1(t0: bool, t1: bool, t2: bool, t3: bool, text: str) -> bool:
     if term >= len(TERMINATIONS) or not TERMINATIONS[term][2]:
         return True
     entry = int(PART) if PART else 0
-    if excluded("C04.contain1", term=term, entry=entry, text=text):
+    if excluded("C04.contain1", term=term, entry=entry, text=text, close=close):
         return True
     r, sb = fresh()
-    state["term"], state["text"], state["raised"] = term, text, None
+    if close:
+        text = "x"
+    use_real_stream(close)
+    state["term"], state["text"], state["raised"], state["close"] = term, text, None, close
     so = sys.stdout
     before = len(r.feedback) + len(r.ignored_feedback)
     try:
@@ -36,7 +39,8 @@ def contain1(t0: bool, t1: bool, t2: bool, t3: bool, text: str) -> bool:
         except Exception:
             return False          # the failure leaked into the grader
     finally:
-        state["term"] = 0
+        state["term"], state["close"] = 0, False
+        use_real_stream(False)
         while sb._current_patches:
             sb._stop_patches()
         sys.stdout = so
